@@ -1,5 +1,6 @@
-(* C19/Driver.v — entry points for the correspondence run *)
-From RM Require Import C19.Model C19.Pipeline.
+(* C19/Driver.v — entry points for the correspondence run.  Every entry point executes C19/Source.v, i.e. the function
+   bodies COMPILED from the Rust source (Gen.C19Src); C19/Proofs3.v proves them equal to the hand-written model. *)
+From RM Require Import C19.Model C19.Pipeline C19.Source.
 Open Scope Z_scope.
 
 Definition b2z (b : bool) : Z := if b then 1 else 0.
@@ -10,8 +11,8 @@ Definition out_flip (f : flip) : list Z :=
 
 Definition mk_op (o : Z) : memop :=
   if o =? 1 then MRead else if o =? 2 then MWrite else if o =? 3 then MExec else Undetermined.
-Definition mk_br (b : Z) : bitrange :=
-  if b =? 0 then Amd64Canonical else if b =? 1 then Amd64NonCanonical else AllBits.
+Definition mk_br (b : Z) : gbr :=
+  if b =? 0 then GBrAmd64Canononical else if b =? 1 then GBrAmd64NonCanonical else GBrAll.
 Definition mk_cpu (c : Z) : cpu :=
   if c =? 0 then Cpu32 else if c =? 1 then CpuAmd64 else if c =? 2 then CpuArm64 else CpuOther64.
 (* regions: kind 0 = (base,size,prot) memory info; kind 1 = (lo,hi,rwx bits) maps *)
@@ -20,21 +21,22 @@ Definition mk_regions (kind : Z) (l : list (Z * Z * Z)) : list region :=
 
 Definition run_try (a reg br : Z) (ctx : option (Z * list Z)) (kind : Z) (regs : list (Z * Z * Z)) (op : Z)
   : list (list Z) :=
-  map out_flip (try_bit_flips a (if reg <? 0 then None else Some reg) (mk_br br) ctx (mk_regions kind regs) (mk_op op)).
+  map out_flip (try_bit_flips_src a (if reg <? 0 then None else Some reg) (mk_br br) ctx (mk_regions kind regs) (mk_op op)).
 
 (* c: 0 x86, 1 amd64, 2 arm64, 3 another 64-bit cpu (ppc64) — runs the check REGENERATED from the source *)
 Definition mk_gcpu (c : Z) : gcpu :=
   if c =? 0 then GX86 else if c =? 1 then GX86_64 else if c =? 2 then GArm64 else GPpc64.
 Definition run_check (c address : Z) (adj : Z) (adjv : Z) (op : Z) (ctx : option (Z * list Z))
            (iregs : list (Z * Z)) (kind : Z) (regs : list (Z * Z * Z)) : list (list Z) :=
-  map out_flip (check_src (mk_gcpu c) address
+  map out_flip (check_src2 (mk_gcpu c) address
                   (if adj =? 1 then GAdjNonCanonical adjv else if adj =? 2 then GAdjNullPointerWithOffset adjv else GAdjNone)
                   (mk_op op) ctx iregs (mk_regions kind regs)).
 
 (* crash address / memory operation of the synthesized exception record (Windows access
    violation carries the kind in information[0] and the address in information[1]) *)
-Definition p_address (os code nparams info1 excaddr : Z) : Z :=
-  if (os =? 0) && ((code =? WIN_EXCEPTION_ACCESS_VIOLATION) || (code =? WIN_EXCEPTION_IN_PAGE_ERROR)) && (2 <=? nparams) then info1 else excaddr.
+Definition p_address (c os code nparams info0 info1 excaddr : Z) : Z :=
+  g_crash_address (mk_gcpu c) (if os =? 0 then GOsWindows else GOsLinux) code nparams
+                  (fun k => if k =? 0 then info0 else if k =? 1 then info1 else 0) excaddr.
 Definition p_op (os code nparams info0 : Z) : Z :=
   if (os =? 0) && (code =? WIN_EXCEPTION_ACCESS_VIOLATION) && (1 <=? nparams)
   then g_memop_of_access info0
@@ -42,7 +44,7 @@ Definition p_op (os code nparams info0 : Z) : Z :=
 Definition run_pipeline (c os code nparams info0 info1 excaddr : Z) (ctx : option (Z * list Z))
            (kind : Z) (regs : list (Z * Z * Z)) : list (list Z) :=
   run_check (if c =? 0 then 0 else if c =? 1 then 1 else 2)
-            (p_address os code nparams info1 excaddr) 0 0 (p_op os code nparams info0) ctx [] kind regs.
+            (p_address (if c =? 0 then 0 else if c =? 1 then 1 else 2) os code nparams info0 info1 excaddr) 0 0 (p_op os code nparams info0) ctx [] kind regs.
 
 (* ---------------------------------------------------------------- Q cases: the whole path with a DECODED instruction
    arch = MINIDUMP_SYSTEM_INFO.processor_architecture; os 0 = Windows, 1 = Linux; flags = exception_flags (si_code).
@@ -92,6 +94,6 @@ Definition run_q (arch os code flags nparams info0 info1 excaddr : Z) (ctx : opt
       | None => None
       end
     else None in
-  (out_adj (dump_adj analysis arch pid e pc),
-   map out_flip (dump_pipeline analysis arch pid e pc (mk_regions kind regs)),
+  (out_adj (dump_adj_src analysis arch pid e pc),
+   map out_flip (dump_pipeline_src analysis arch pid e pc (mk_regions kind regs)),
    out_analysis (the_analysis analysis pc)).
